@@ -136,6 +136,7 @@ theorem runLocal_closed (op : Op) (l : Local) (hc : l.me.closed = true) :
   | requestClientAuth => simp [runLocal, requestClientAuth, hc, liftU, closedAnswer]
   | heartbeat p n => simp [runLocal, heartbeat, hc, liftU, closedAnswer]
   | close => simp [runLocal, close, hc, liftU, closedAnswer]
+  | makefile => simp [runLocal, makefile, hc, closedAnswer]
   | inject m => simp [runLocal, sendRaw, hc, closedAnswer]
   | kill k => simp [runLocal, hc, closedAnswer]
   | abort => simp [runLocal, hc, closedAnswer]
